@@ -91,6 +91,12 @@ func (m *expirationMap[_]) update(key, conflict uint64, oldExpTime, newExpTime t
 	}
 
 	newBucketNum := storageBucket(newExpTime)
+	// The overwrite may land long after its expiration was computed (a stalled
+	// caller). As in add, never file an entry under a bucket the sweep has
+	// already passed: it would never be looked at again.
+	if newBucketNum <= m.lastCleanedBucketNum {
+		newBucketNum = m.lastCleanedBucketNum + 1
+	}
 	newBucket, ok := m.buckets[newBucketNum]
 	if !ok {
 		newBucket = make(bucket)
